@@ -36,6 +36,8 @@ structure ErsWrites where
   /-- all candidates the strategy may pick its (budget-limited) deletions / creations from -/
   deleteCands : List String := []
   createCands : List NodeItem := []
+  /-- (active role) the per-node entries the rolling update worked on: the input of the C03 budget -/
+  entries : List (NodeItem × Option Pod) := []
   statusUpdate : Option ERSStatus := none
   requeue : Bool := false
   requeueAfter : Dur := 0
@@ -198,6 +200,7 @@ def reconcileErs (rs : ERS) (st : ErsStore) (released : String → Bool) (affini
       else r.deleteE.map (·.2.name),
     createCands :=
       if role == "active" then (countAll rs.templateGeneration now (targeted sp)).toCreate else r.createE,
+    entries := if role == "active" then targeted sp else [],
     statusUpdate := if stF != rs.status then some stF else none,
     requeue := r.requeue, requeueAfter := rqAfter }
 
